@@ -176,18 +176,23 @@ def oracle(case, out, build, exe_query=None):
                 ch = [py_cvt(fb(b)) for b in sr] + [py_cvt(py_max(fb(a[3]), 0.0))]
         got = [(o >> (8 * k)) & 255 for k in range(4)]
         return got == ch and 0 <= o < (1 << 32), "channel k of the packed word = %r (per channel, <<0,8,16,24)" % ch
-    if fn in (11, 12):
-        lo, hi, v = fb(a[2]), fb(a[3]), fb(o)
-        if not (lo <= hi) or math.isinf(lo) or math.isinf(hi):
-            return True, "(lower>upper or infinite: no requirement)"
+    if fn in (11, 12, 17, 18):
+        # range clause, stated as the theorems pcg_float_range / uniform_real_range do:
+        #   lower <= value <= rn(rn(upper - lower) + lower)      (rn = round to nearest even in binary32)
+        # i.e. at most the ONE rounding of the final addition (plus that of the width) beyond upper; for lower = 0
+        # or whenever upper - lower and its sum with lower are representable this is upper itself.
+        if out.startswith("STATEFAIL"):
+            return False, "(harness could not plant the generator state)"
+        lo_b, hi_b = (a[2], a[3]) if fn in (11, 12) else (a[0], a[1])
+        lo, hi, v = fb(lo_b), fb(hi_b), fb(o)
+        if lo != lo or hi != hi or not (lo <= hi) or math.isinf(lo) or math.isinf(hi):
+            return True, "(lower>upper, NaN or infinite: no requirement)"
         diff = fadd(hi, -lo)
         if math.isinf(diff):
             return True, "(upper-lower overflows: no requirement)"
-        if fn == 11:
-            top = fadd(diff, lo)
-        else:
-            top = fadd(lo, fmul(4294967296.0, fdiv(diff, 4294967296.0)))
-        return (lo <= v <= top), "value in [lower, %r] (upper to within one rounding step)" % top
+        top = fadd(diff, lo)
+        return (lo <= v <= top), ("value in [lower, rn(rn(upper-lower)+lower)] = [%r, %r] (0x%08X..0x%08X)"
+                                  % (lo, top, bf(lo), bf(top)))
     if fn == 13:
         v = fb(o)
         return 0.0 <= v <= 1.0000002, "colour channel in [0,1] (to within one rounding step)"
@@ -281,6 +286,57 @@ def gen_float_cases(r, scale):
     return cs
 
 
+def color_boundary_inputs(limit=120000):
+    """inputs i of makeRandomColor whose channel numerator g % m is 0 or m-1 (found by scanning)"""
+    out = []
+    for m in (13 * 17 * 43, 11 * 29, 7 * 23 * 63):
+        got = {0: 0, m - 1: 0}
+        for i in range(limit):
+            g = ((i * 1905) % 2 ** 32 + 12312314) % 2 ** 32
+            if g % m in got and got[g % m] < 3:
+                got[g % m] += 1
+                out.append("13 %d %d" % (i, m))
+    return out
+
+
+def gen_dist_cases(r, scale):
+    """fn 17 / 18: both float distributions on boundary-heavy RANGES with the generator output forced.
+    widths 2^e for EVERY binade from the smallest denormal to 2^126 (at zero, straddling zero, below zero, with a
+    non-power-of-two mantissa), lower == upper, lower == -upper, huge |lower| with a width of a few ulps;
+    generator outputs 0, 1, 2^31, 2^32-1 (always), values around the float conversion's rounding points, random."""
+    ranges = []
+    for e in range(-149, 127):
+        w = 2.0 ** e
+        ranges.append((0.0, w))
+        ranges.append((-w, 0.0))
+        if e > -149:
+            ranges.append((-w / 2, w / 2))
+            ranges.append((0.0, w * 1.5))
+        if e > -126 and e <= 125:
+            m = 1 + r.getrandbits(23) / 2.0 ** 23
+            ranges.append((f32(-w * m * r.random()), f32(w * m)))
+            ranges.append((f32(w * r.random()), f32(w * m)))          # tiny positive offset, tiny width
+    for E in range(-120, 127, 5):                                      # huge |lower|, width of a few ulps
+        b = ((E + 127) << 23) | r.getrandbits(23)
+        k = r.choice([1, 1, 2, 3, 16])
+        ranges.append((fb(b), fb(b + k)))
+        ranges.append((fb((b + k) | 0x80000000), fb(b | 0x80000000)))
+    for _ in range(40 * scale):
+        x = fb(rfinite(r, 1e30))
+        ranges.append((x, x))
+        ranges.append((-abs(x), abs(x)))
+    ks = [0, 1, 2, 2 ** 31, 2 ** 31 - 1, 2 ** 32 - 2, 2 ** 32 - 128, 2 ** 32 - 129, 2 ** 24, 2 ** 24 + 1, 2 ** 31 + 128]
+    cs = []
+    for lo, hi in ranges:
+        if not (lo <= hi):
+            continue
+        for fn in (17, 18):
+            sel = [2 ** 32 - 1, r.choice(ks), r.getrandbits(32)] + ([0, 2 ** 31] if r.random() < 0.15 * scale else [])
+            for k in sel:
+                cs.append("%d %d %d %d" % (fn, bf(lo), bf(hi), k))
+    return cs
+
+
 def gen_oracle_only_cases(r, scale):
     cs = []
     for _ in range(60 * scale):
@@ -340,6 +396,9 @@ def nontrivial(case, out):
         return len(set(a)) > 1
     if fn in (11, 12):
         return not (a[2] == 0 and a[3] == 0x3F800000)
+    if fn in (17, 18):     # denormal-scale regime, straddling zero, degenerate range, or an extreme generator output
+        lo, hi = fb(a[0]), fb(a[1])
+        return (hi - lo) < 2.0 ** -94 or (lo < 0 < hi) or lo == hi or a[2] in (0, 1, 2 ** 31, 2 ** 32 - 1)
     if fn in (20, 21, 22, 23):
         return a[1] > 1 and a[0] % a[1] != 0 or a[0] + a[1] > (1 << 31)
     if fn == 25:
@@ -511,6 +570,19 @@ def regenerate(ctx):
         changed.append("SimdFacts.v")
         shutil.copy(tmp2, gen2)
     os.remove(tmp2)
+    tmp3 = os.path.join(ctx.build, "DistFacts.new.v")
+    rc, o = vlib.sh(["python3", os.path.join(ctx.verif, "props", "C07", "distfacts.py"), ctx.repo, tmp3], timeout=300)
+    if rc != 0 or not os.path.exists(tmp3):
+        ctx.log("distfacts failed:\n" + o[-2000:])
+        ctx.broken.append("regeneration of gen/DistFacts.v from the working tree (clang failed)")
+        return
+    txt3 = open(tmp3).read()
+    ctx.cov["dist_facts"] = dict(re.findall(r"Definition (\w+_ast) : dx :=\s*(.*?)\.\n", txt3, re.S))
+    gen3 = os.path.join(gdir, "DistFacts.v")
+    if not os.path.exists(gen3) or open(gen3).read() != txt3:
+        changed.append("DistFacts.v")
+        shutil.copy(tmp3, gen3)
+    os.remove(tmp3)
     if changed:
         ctx.log("regenerated text changed (%s): the Tie A obligations of PropertiesGen.v are re-checked against it" % ", ".join(changed))
 
@@ -584,7 +656,7 @@ def run(ctx):
     # ---- leg 2: binary32 Coq model (vm_compute) vs both builds
     r = ctx.rng("float")
     scale = ctx.pick(1, 5)
-    fcases = gen_float_cases(r, scale)
+    fcases = gen_float_cases(r, scale) + gen_dist_cases(r, scale) + color_boundary_inputs()
     ocases = gen_oracle_only_cases(r, scale)
     mvals = coq_eval(ctx, fcases)
     outs = {}
@@ -615,10 +687,17 @@ def run(ctx):
                 if (lab, fn) not in reported and nviol < 12:
                     reported.add((lab, fn)); nviol += 1
                     a = c.split()[1:]
-                    ctx.violation("%s build: fn %d on %s gives %s; required: %s" % (lab, fn, c, il, req),
-                                  {"build": lab, "case": c, "args_hex": ["0x%08X" % (int(x) & 0xFFFFFFFF) for x in a],
-                                   "args_float": [repr(fb(int(x))) for x in a] if fn < 11 else None,
-                                   "observed": il, "required": req, "model": mvals[i] if mvals and i < len(fcases) else None})
+                    rep = {"build": lab, "case": c, "args_hex": ["0x%08X" % (int(x) & 0xFFFFFFFF) for x in a],
+                           "args_float": [repr(fb(int(x))) for x in a] if fn < 11 else None,
+                           "observed": il, "required": req, "model": mvals[i] if mvals and i < len(fcases) else None}
+                    sig = None
+                    if fn in (17, 18):
+                        rep.update({"distribution": "pcg32_biased_float_distribution" if fn == 17 else "uniform_real_distribution<float>",
+                                    "lower": repr(fb(int(a[0]))), "upper": repr(fb(int(a[1]))), "rng_output": int(a[2]),
+                                    "value": repr(fb(int(il.split()[0]))) if il.split()[0].isdigit() else il})
+                    if fn in (12, 18):
+                        sig = "C07-uniform-real-distribution-denormal-scale"
+                    ctx.violation("%s build: fn %d on %s gives %s; required: %s" % (lab, fn, c, il, req), rep, signature=sig)
                 continue
             if mvals is None or i >= len(fcases):
                 continue
@@ -678,6 +757,8 @@ def run(ctx):
         "(float*float and 1/x are exact or innocuously double-rounded in binary64)",
         "case harness harness/C07/harness.cpp (g++ -O1 -ffp-contract=off, ASan+UBSan), generators and python oracles in props/C07/check.py",
         "Flocq 4 IEEE754.Binary/Bits binary32 operations evaluated by vm_compute as the executable model",
+        "props/C07/distfacts.py (expression trees of the distribution classes' constructor / operator() from the clang AST; pcg32's "
+        "min()/max() read as 0 and 2^32-1)",
         "Tie A: tools/cxx2coq (clang 14 JSON AST -> Gallina over Common.CxxSem.interp) and props/C07/simdfacts.py (intrinsic expression "
         "trees of the SIMD branches, deg2rad literal -> float bits by python rounding); the readings Sem.IF32 / CxxSem.IZ / MZ",
         "modelled, not verified: the rcpss/rsqrtss estimate instructions (section variables rcp_est/rsqrt_est with the vendor error bound as "
